@@ -13,7 +13,7 @@ OPS_ALL = ["create", "createKeyPair", "register", "deriveKey", "locate", "get", 
            "decrypt", "sign", "signatureVerify", "mac", "setAttribute", "modifyAttribute", "deleteAttribute"]
 VERSIONS = [10, 11, 12, 13, 14, 20]
 USERS = ["alice", "bob", "carol"]
-GROUPSETS = [None] * 14 + [[], ["g1"], ["g2"], ["g1", "g2"], ["g2", "g1"], [""]]
+GROUPSETS = [None] * 14 + [[], ["g1"], ["g2"], ["g1", "g2"], ["g2", "g1"], ["g3"]]
 MASKS = [0, 0x1, 0x2, 0x3, 0x4, 0x8, 0xC, 0x10, 0x80, 0x200, 0x3FF, 0x3FF, 0xFFFFFF, 0xFFFFFF, 0xFFFFFF, 0xFFFFFF,
          0x3FF, 0xFFFFFF, 0x1000000, 0x20C]
 ALGS = [3, 4, 2, 1, 8]            # AES, RSA, 3DES, DES, HMAC_SHA1
@@ -78,7 +78,12 @@ class Gen(object):
                 if u in self.live and self.live[u]["owner"] is not None:
                     user = self.live[u]["owner"]
                     break
-        return {"user": user, "groups": self.ch(GROUPSETS)}
+        gp = self.profile.get("groups")
+        if gp is not None:
+            groups = self.ch(GROUPSETS[14:]) if self.p(gp) else None
+        else:
+            groups = self.ch(GROUPSETS)
+        return {"user": user, "groups": groups}
 
     def observe(self, line, out):
         """Learn identifiers / owners / states from the implementation's answer."""
